@@ -277,23 +277,36 @@ theorem autobegin_pres (c : Conn) : Pres c c.autobegin.1 := by
   · exact begin_pres c
   · exact Pres.refl c
 
-theorem dbapiError_pres (c : Conn) (k : FKind) : Pres c (c.dbapiError k).1 := by
-  unfold Conn.dbapiError
-  cases k with
-  | disc => exact onDisconnect_pres c
-  | err =>
-    simp only []
+theorem discError_pres (c : Conn) : Pres c c.discError.1 := by
+  unfold Conn.discError
+  split
+  · simp only []
     split
     · exact Pres.refl c
-    · split
-      · cases hf : c.db.takeFault .rollback with
-        | mk o db1 =>
-          have hs : Shrinks c.db db1 := by
-            have := takeFault_shrinks c.db .rollback; rw [hf] at this; exact this
-          cases o with
-          | some _ => exact pres_db c db1 hs
-          | none => exact pres_db c _ (hs.trans (rollback_shrinks db1))
-      · exact Pres.refl c
+    · exact ⟨fun hr => hr, kill_shrinks _⟩
+  · exact onDisconnect_pres c
+
+theorem plainError_pres (c : Conn) : Pres c c.plainError.1 := by
+  unfold Conn.plainError
+  split
+  · exact Pres.refl c
+  · split
+    · cases hf : c.db.takeFault .rollback with
+      | mk o db1 =>
+        have hs : Shrinks c.db db1 := by
+          have := takeFault_shrinks c.db .rollback; rw [hf] at this; exact this
+        cases o with
+        | some _ => exact pres_db c db1 hs
+        | none => exact pres_db c _ (hs.trans (rollback_shrinks db1))
+    · exact Pres.refl c
+
+theorem dbapiError_pres (c : Conn) (k : FKind) : Pres c (c.dbapiError k).1 := by
+  unfold Conn.dbapiError
+  split
+  · exact discError_pres c
+  · cases k with
+    | disc => exact discError_pres c
+    | err => exact plainError_pres c
 
 theorem dbapiCall_pres (c : Conn) (p : FPoint) (f : DB → DB) (hf : ∀ db, Shrinks db (f db)) :
     Pres c (c.dbapiCall p f).1 := by
@@ -574,17 +587,25 @@ theorem andThen_not_ok {x : Conn × Res} {f : Conn → Conn × Res} (h : x.2 ≠
   obtain ⟨c, r⟩ := x
   cases r <;> first | rfl | exact absurd rfl h
 
+theorem discError_ne_ok (c : Conn) : c.discError.2 ≠ .ok := by
+  unfold Conn.discError
+  split <;> simp
+
+theorem plainError_ne_ok (c : Conn) : c.plainError.2 ≠ .ok := by
+  unfold Conn.plainError
+  split
+  · simp
+  · split
+    · split <;> simp
+    · simp
+
 theorem dbapiError_ne_ok (c : Conn) (k : FKind) : (c.dbapiError k).2 ≠ .ok := by
   unfold Conn.dbapiError
-  cases k with
-  | disc => simp
-  | err =>
-    simp only []
-    split
-    · simp
-    · split
-      · split <;> simp
-      · simp
+  split
+  · exact discError_ne_ok c
+  · cases k with
+    | disc => exact discError_ne_ok c
+    | err => exact plainError_ne_ok c
 
 /-- closing an ACTIVE root transaction without error while the DBAPI connection is still
     held means the ROLLBACK really happened -/
